@@ -2,6 +2,7 @@ package openapi
 
 import (
 	"context"
+	"errors"
 	"fmt"
 	"regexp"
 	"sort"
@@ -264,6 +265,10 @@ func (g *generator) walkEnum(schema *openapi3.Schema) (ast.Type, error) {
 	format := "%#v"
 	if schema.Type.Is(openapi3.TypeString) {
 		format = "%s"
+	}
+
+	if len(schema.Type.Slice()) == 0 {
+		return ast.Type{}, errors.New("enum without a type")
 	}
 
 	enumType, err := getEnumType(schema.Type.Slice()[0])
